@@ -71,6 +71,7 @@ func CutReachFrom(p *Prog, fn *ssa.Function, start *ssa.BasicBlock, g Guard, avo
 		return res
 	}
 	instSeen := map[string]bool{}
+	loopCompletes := map[*ssa.BasicBlock]bool{}
 	isSink := map[*ssa.BasicBlock]bool{}
 	for _, s := range sinks {
 		isSink[s] = true
@@ -142,6 +143,35 @@ func CutReachFrom(p *Prog, fn *ssa.Function, start *ssa.BasicBlock, g Guard, avo
 					instSeen[key] = true
 					res.Instances = append(res.Instances, key)
 				}
+			}
+		}
+		// a range loop over a non-empty literal table runs its body at least
+		// once before the loop is left through the header: the exit edge is
+		// feasible only if, under the same cut, an iteration can complete
+		if len(succs) == 2 && allowed[1] && literalRangeHeader(b) && nestedLoopProbe == 0 {
+			key := b
+			done, known := loopCompletes[key]
+			if !known {
+				nestedLoopProbe++
+				inner := CutReachFrom(p, fn, succs[0], g, avoid)
+				nestedLoopProbe--
+				for e := range inner.Edges {
+					if e[1] == b.Index && e[0] != b.Index {
+						if pb := fn.Blocks[e[0]]; b.Dominates(pb) {
+							done = true
+						}
+					}
+				}
+				for _, k := range inner.Instances {
+					if !instSeen[k] {
+						instSeen[k] = true
+						res.Instances = append(res.Instances, k)
+					}
+				}
+				loopCompletes[key] = done
+			}
+			if !done {
+				allowed[1] = false
 			}
 		}
 		for i, s := range succs {
@@ -894,4 +924,39 @@ func boolImplies(p *Prog, fn *ssa.Function, g Guard, v ssa.Value, want bool, dep
 		return false
 	}
 	return (s == 0) == want
+}
+
+
+// nestedLoopProbe is non-zero while the body of a literal-table loop is being
+// probed (probes do not nest).
+var nestedLoopProbe int
+
+// literalRangeHeader: b is the header of "for ... := range <slice literal>"
+// with at least one row: if i+1 < len(S) where S slices a local array
+// literal that nothing else re-slices.
+func literalRangeHeader(b *ssa.BasicBlock) bool {
+	ifi, ok := lastIf(b)
+	if !ok {
+		return false
+	}
+	bo, ok := ifi.Cond.(*ssa.BinOp)
+	if !ok || bo.Op != token.LSS {
+		return false
+	}
+	inc, ok := bo.X.(*ssa.BinOp)
+	if !ok || inc.Op != token.ADD {
+		return false
+	}
+	if _, isPhi := inc.X.(*ssa.Phi); !isPhi || inc.X.(*ssa.Phi).Block() != b {
+		return false
+	}
+	if k, isK := ConstInt(inc.Y); !isK || k != 1 {
+		return false
+	}
+	lc, ok := bo.Y.(*ssa.Call)
+	if !ok || CalleeName(lc.Common()) != "builtin:len" || len(lc.Call.Args) != 1 {
+		return false
+	}
+	n, ok := LiteralTableLen(lc.Call.Args[0])
+	return ok && n >= 1
 }
